@@ -398,6 +398,8 @@ func (r *Run) keyListOf(fn *Func, x ast.Expr, depth int) (string, bool) {
 			}
 			switch {
 			case s.kind == "zero":
+			case s.kind == "assign" && isEmptyMake(fn.Info(), s.rhs):
+				// make([]T, 0, n): starts empty
 			case s.kind == "assign" && strings.HasPrefix(c, "append(local:") && strings.Contains(c, ",rangekey(") && strings.HasSuffix(c, "))"):
 				nApp++
 				m = c[strings.Index(c, ",rangekey(")+len(",rangekey(") : len(c)-2]
@@ -448,7 +450,28 @@ func (r *Run) keyListOf(fn *Func, x ast.Expr, depth int) (string, bool) {
 		if rc != "" && (m == "recv" || strings.HasPrefix(m, "recv.")) {
 			m = rc + m[len("recv"):]
 		}
+		// keys of a map handed in (mapKeys(s.PingRequests)): the caller's argument
+		for k, a := range v.Args {
+			pk := fmt.Sprintf("param:#%d", k)
+			if m == pk || strings.HasPrefix(m, pk+".") {
+				m = r.P.canon(fn, a, 0) + m[len(pk):]
+				break
+			}
+		}
 		return m, true
 	}
 	return "", false
+}
+
+// isEmptyMake: make(T, 0) / make(T, 0, n) — a slice that starts empty.
+func isEmptyMake(info *types.Info, x ast.Expr) bool {
+	call, ok := ast.Unparen(x).(*ast.CallExpr)
+	if !ok || len(call.Args) < 2 {
+		return false
+	}
+	if b, ok := calleeObj(info, call).(*types.Builtin); !ok || b.Name() != "make" {
+		return false
+	}
+	c, isC := intConstVal(info, call.Args[1])
+	return isC && c == 0
 }
